@@ -1,0 +1,39 @@
+//go:build verif
+
+// Contract for the work splitter (comment-only). Whatever the number of iterations and the number of tasks, the
+// ranges [start, end) that Execute hands to the work function - one per goroutine - are contiguous, start at 0, are
+// not reversed and end at nbIterations: they partition [0, nbIterations), so every index is processed exactly once.
+// The go statements are executed as calls at the point where the goroutine is started (option go-as-call): the
+// contract is about the arguments the goroutines are started with, not about their interleaving; the work function
+// is an opaque call through the function value; the wait group is opaque.
+
+package parallel
+
+//@ func runtime.NumCPU
+//@ assumed runtime.NumCPU (standard library): the number of logical CPUs usable by the process, at least 1
+//@ ensures result >= 1 && result <= 65536
+//@ end
+
+//@ func Execute
+//@ option opaque-calls
+//@ option go-as-call
+//@ option inline-callees Execute$1
+//@ option nomerge
+//@ option noabstract
+//@ requires 0 <= nbIterations && nbIterations <= 1099511627776
+//@ ghost covered = 0
+//@ ghost extra0 = 0
+//@ cut after def nbIterationsPerCpus #1
+//@ + lemma euclid(nbIterations, nbTasks)
+//@ cut after def extraTasks #1
+//@ + ghost extra0 = extraTasks
+//@ + invariant[remainder] 0 <= extraTasks && (extraTasks < nbTasks || nbTasks == 0)
+//@ loop 0
+//@ + invariant[partition] 0 <= i && i <= nbTasks && 1 <= nbIterationsPerCpus && nbIterations == nbTasks*nbIterationsPerCpus + extra0 && 0 <= extra0 && (extra0 < nbTasks || nbTasks == 0) && 0 <= extraTasks && 0 <= extraTasksOffset && extraTasksOffset + extraTasks == extra0 && extraTasksOffset <= i && (extraTasks > 0 ==> extraTasksOffset == i) && covered == i*nbIterationsPerCpus + extraTasksOffset
+//@ + havoc covered
+//@ cut before call work #*
+//@ + invariant[contiguous] callarg0 == covered && callarg0 <= callarg1
+//@ cut after call work #*
+//@ + ghost covered = callarg1
+//@ ensures[covers] covered == nbIterations
+//@ end
